@@ -39,7 +39,7 @@ def tables : List (List Line) := [
   -- t8: the largest, no handler; labels at the offsets where other tables have their handler / default value
   [.blank, .opt (b "-a") false, .opt (b "--foo") false, .blank, .opt (b "-q") true, .opt (b "-b") true, .blank,
    .opt (b "--bar") true, .opt (b "-y") false, .blank, .opt (b "--zed") true, .blank, .blank, .opt (b "-z") false,
-   .blank, .opt (b "--yy") false]
+   .blank, .opt (b "--yyyyyyyyyyyyyyyyyyyyyyyyyyyyyyyyyyyyyyyyyyyyyyyyyyyyyyyyyyyyyyyyyyyyyyyyyyyyyyyyyyyyyyyyyyyyyyyyyyyyyyyyyyyyyyyyyyyyyyyyyyyyyyyyyyyyyyyyyyyyyyyyyyyyyyyyyyyyyyyyyyyyyyyyyyyyyyyyyyyyyyyyyyyyyyyyyyyyyyyyyyyyyyyyyyyyyyyyyyyyyyyyyyyyyyyyyyyyyyyyyyyyyyyyyyyyyyyyyyyyyyyyyyyyyyyyyyyyyyyyyyyyyyyyyyyyyyyyyy") false]
 ]
 
 inductive Op where
